@@ -139,6 +139,10 @@ def nu_str(s):
 def render_handler(p):
     """p: dict(guard, appends=[dict(topic, meta, ttl, ctx, content)], ret, fail, resume, suffix, ttl)"""
     lines = ["{"]
+    if p.get("module"):
+        lines.append('  modules: { m1: "export def f [] { \\"mod-out\\" }" }')
+    if p.get("pulse"):
+        lines.append(f"  pulse: {p['pulse']}")
     if p.get("resume"):
         lines.append(f"  resume_from: {nu_str(p['resume'])}")
     if p.get("suffix") or p.get("ttl"):
@@ -183,6 +187,8 @@ def render_handler(p):
         body.append("    $frame.topic")
     elif ret == "frame":
         body.append("    $frame")
+    elif ret == "mod":
+        body.append("    m1 f")
     lines.append("  run: {|frame|\n" + "\n".join(body) + "\n  }")
     lines.append("}")
     return "\n".join(lines)
@@ -205,6 +211,8 @@ def model_handler(conf, p, delivered):
     ret = p.get("ret", "nothing")
     if ret == "frame":
         ret = "topic"     # same emission structure; the content (the frame record as JSON) is filled in by the caller
+    if ret == "mod":
+        ret = "str:mod-out"   # the value a command of the script's own module returns
     if ret.startswith("str:"):
         ret = "str:" + xh(ret[4:])
     elif ret.startswith("int:"):
@@ -297,9 +305,10 @@ def gen_prog(r, name, ctxs, k=0):
     fail = r.choices(["none", "before", "after", "between"], [8, 1, 1, 1])[0]
     if fail == "between":
         fail = f"between:{r.randrange(0, len(appends) + 1)}"
-    return dict(guard=guard, appends=appends,
-                ret=r.choice(["nothing", "count", "count", "str:pong", "int:42", "topic", "frame", "frame"]),
+    ret = r.choice(["nothing", "count", "count", "str:pong", "int:42", "topic", "frame", "frame", "mod"])
+    return dict(guard=guard, appends=appends, ret=ret, module=(ret == "mod" or r.random() < 0.1),
                 fail=fail, resume=r.choice(["tail", "tail", "head", "after"]), slow_ms=r.choice([0, 0, 1200]),
+                pulse=r.choice([None, None, None, 150]),
                 suffix=r.choice([None, None, ".x", ".reply"]), ttl=r.choice([None, None, "time:600000", "forever", "ephemeral"]))
 
 
@@ -673,6 +682,8 @@ def run_restart_scenario(seed, n_events=12, kill=True):
 def render_command(p):
     """p: dict(values=[...], appends=[dict(topic, meta, content)], fail, suffix, ttl, slow_ms, count)"""
     lines = ["{"]
+    if p.get("module"):
+        lines.append('  modules: { m2: "export def g [] { [\\"m-a\\" \\"m-b\\"] }" }')
     if p.get("suffix") or p.get("ttl"):
         ro = []
         if p.get("suffix"):
@@ -691,7 +702,9 @@ def render_command(p):
     if p.get("fail"):
         body.append('    error make {msg: "boom"}')
     vals = p.get("values", [])
-    if p.get("count"):
+    if p.get("module"):
+        body.append("    m2 g")          # the values come from a command of the script's own module
+    elif p.get("count"):
         body.append("    [$env.count]")
     elif p.get("single") and vals:
         body.append("    " + nu_str(vals[0]))
@@ -749,6 +762,8 @@ def run_command_scenario(seed, n_events=12):
                                   for _ in range(r.choice([0, 0, 1, 2]))],
                          fail=r.random() < 0.15, suffix=r.choice([None, None, ".x"]), ttl=r.choice([None, "time:600000", "forever"]),
                          slow_ms=r.choice([0, 0, 150]), count=r.random() < 0.3, single=r.random() < 0.2)
+                if r.random() < 0.2:
+                    p.update(module=True, values=["m-a", "m-b"], count=False, single=False)
                 script = render_command(p)
                 i = cl.append(n + ".define", ctx=c, body=script.encode())
                 defs[i] = p
